@@ -7,7 +7,7 @@ from hypothesis import strategies as st
 
 from hxv.gen import configs as gc
 from hxv.gen import streams as gs
-from hxv.lib import Result, Violation, build_indicator, mgr_kwargs, mk_candles, raises, split_chunks, tf_seconds
+from hxv.lib import TZOFFS, interlude, Result, Violation, build_indicator, mgr_kwargs, mk_candles, raises, split_chunks, tf_seconds
 from hxv.ref import resample as rr
 from hxv.runner import Shard
 
@@ -85,6 +85,8 @@ def cases(draw, subject):
         "mode": mode,
         "preload": preload,
         "chunks": [] if mode == "batch" else draw(gs.chunking(n - preload)),
+        "tzoff": draw(st.sampled_from(TZOFFS)),  # timezone-aware timestamps are well-formed input too
+        "interlude": interlude(lambda a, b: draw(st.integers(a, b)), lambda xs: draw(st.sampled_from(xs))) if draw(st.integers(0, 3)) == 0 else None,
     }
 
 
@@ -163,14 +165,20 @@ def run_case(case) -> Result:
 
     try:
         if case.get("mode") == "batch":
-            ind = build_indicator(cfg, candles=mk_candles(rows), **mgr_kwargs(case))
+            ind = build_indicator(cfg, candles=mk_candles(rows, case.get("tzoff")), **mgr_kwargs(case))
             ind.calculate()
         else:
             pre = min(case.get("preload", 0), len(rows))
-            ind = build_indicator(cfg, candles=mk_candles(rows[:pre]), **mgr_kwargs(case))
+            ind = build_indicator(cfg, candles=mk_candles(rows[:pre], case.get("tzoff")), **mgr_kwargs(case))
             rest = rows[pre:]
-            for a, b in split_chunks(len(rest), case.get("chunks", [])):
-                ind.append(mk_candles(rest[a:b]))
+            spans = split_chunks(len(rest), case.get("chunks", []))
+            inter = case.get("interlude")
+            for j, (a, b) in enumerate(spans):
+                if inter and j == inter["after"] % len(spans):
+                    from hxv.lib import apply_interlude
+
+                    apply_interlude(ind, inter)  # recalculate / purge+calculate / recompute an index: must not raise either
+                ind.append(mk_candles(rest[a:b], case.get("tzoff")))
             ind.calculate()
     except Exception as exc:
         return Result([raises(exc, subject)], nontrivial, labels)
